@@ -168,7 +168,13 @@ fn matcher_case(ctx: &mut Ctx, idx: u64) {
         let text = v.trie().decode_raw(&body);
         match complete_in_byte_engine(&f1, &g, &text) {
             Some(true) => {}
-            Some(false) => viol!("text_at_stop_is_not_complete", json!({"text": bytes_dbg(&text)})),
+            Some(false) => {
+                let sr = m.stop_reason();
+                if g.has_tag("unproductive") && matches!(sr, StopReason::NoExtension | StopReason::NoExtensionBias) {
+                    viol!("dead_end_stop_in_unproductive_grammar", json!({"text": bytes_dbg(&text), "stop_reason": format!("{sr:?}")}));
+                }
+                viol!("text_at_stop_is_not_complete", json!({"text": bytes_dbg(&text), "stop_reason": format!("{sr:?}")}))
+            }
             None => {}
         }
         // after stop: nothing is accepted, mask is an error, mask_or_eos is exactly the EOS set
@@ -311,7 +317,13 @@ fn constraint_case(ctx: &mut Ctx, idx: u64) {
         let text = v.trie().decode_raw(&body);
         match complete_in_byte_engine(&f1, &g, &text) {
             Some(true) => {}
-            Some(false) => viol!("text_at_stop_is_not_complete", json!({"text": bytes_dbg(&text)})),
+            Some(false) => {
+                let sr = c.parser.stop_reason();
+                if g.has_tag("unproductive") && matches!(sr, StopReason::NoExtension | StopReason::NoExtensionBias) {
+                    viol!("dead_end_stop_in_unproductive_grammar", json!({"text": bytes_dbg(&text), "stop_reason": format!("{sr:?}")}));
+                }
+                viol!("text_at_stop_is_not_complete", json!({"text": bytes_dbg(&text), "stop_reason": format!("{sr:?}")}))
+            }
             None => {}
         }
         // the stop is sticky: further calls report stop / error, never a fresh mask
